@@ -136,6 +136,7 @@ impl PartialEq for Value_ {
     fn eq(&self, other: &Self) -> bool {
         match (self, other) {
             (Value_::Int(i1), Value_::Int(i2)) => i1 == i2,
+            (Value_::Float(f1), Value_::Float(f2)) => f1 == f2,
             (
                 Value_::Fun { name_sym, .. },
                 Value_::Fun {
@@ -182,6 +183,20 @@ impl PartialEq for Value_ {
             ) => {
                 // We don't consider type when comparing tuple
                 // values.
+                self_items == other_items
+            }
+            (
+                Value_::Dict {
+                    items: self_items,
+                    value_type: _,
+                },
+                Value_::Dict {
+                    items: other_items,
+                    value_type: _,
+                },
+            ) => {
+                // As with lists, the value type is not part of the
+                // comparison.
                 self_items == other_items
             }
             (
